@@ -387,6 +387,11 @@ def o7_3_boundary_inputs(mir, tier):
                         split = Or(*[And(F[i]['lg'][0] == F[j]['sm'][0], klt(F[i]['lg'], F[j]['sm']),
                                          And(*[kle(F[x]['lg'], F[i]['lg']) for x in got])) for i in got])
                         posts.append(('a user key is split: a remaining file starts with the largest user key of the compaction inputs', Not(split)))
+                        if chosen == list(range(chosen[0], chosen[-1] + 1)):
+                            # callers pass a contiguous run of the level (the files overlapping a range): then no remaining file may continue the last
+                            # user key of ANY input, not only of the largest one
+                            split_any = Or(*[And(F[i]['lg'][0] == F[j]['sm'][0], klt(F[i]['lg'], F[j]['sm'])) for i in got])
+                            posts.append(('a user key is split: a remaining file continues the last user key of an input file (older versions stay in the younger level)', Not(split_any)))
                     for j in got[len(chosen):]:
                         # every added file is justified: it starts with the user key some earlier input ends with
                         idx = got.index(j)
